@@ -278,4 +278,8 @@ class FatIO(io.RawIOBase):
             # Update file size
             self.dir_entry.filesize = size
             self.fs.update_directory_entry(self.dir_entry.get_parent_dir())
+            if cur_pos <= size:
+                # The cluster the cursor pointed to may have just been freed,
+                # re-derive the cursor for the (unchanged) position
+                self.seek(cur_pos)
             return size
